@@ -248,6 +248,20 @@ def check_C09(tier):
                    extra_cov={'exhaustive': True, 'exhaustive_note': 'part (a) is exhaustive up to the stated length; part (b) is sampling'}, min_eval=10000)
 
 
+def check_C07(tier):
+    t0 = time.time()
+    cases = '4000' if tier == 'thorough' else '250'
+    agg = Agg('C07')
+    for variant in (('fast', 'san') if tier == 'thorough' else ('fast',)):
+        b = compile_bin('history', ['checks/history.cc'], variant, libs=['-lrapidcheck'])
+        agg.add(run_native(b, ['--seed', str(seed()), '--cases', cases if variant == 'fast' else '600', '--known', known_tsv('C07')], NCPU, 'C07-' + variant))
+    rule = ('rapidcheck-generated API histories (up to ~100 operations, whole-sequence shrinking) over 4 generator slots and 18 configurations (angular-correlation nuclides, deep cascades, chains, '
+            'window mode, 4b, b+ modes): create+initialise, shoot into a fresh / reused / pre-filled (junk particles) / shrink_to_fit event, reset+re-initialise, destroy, interleaved across slots; '
+            'oracle at every shot: fresh generator + fresh event on the same init and shot tapes, bit-identical; non-trivial & distinct = (target configuration, history shape) where the shot had '
+            '>=1 earlier shot on the same instance, >=1 operation on another instance in between, and a non-fresh event')
+    return verdict(agg, tier, t0, rule, ['tapes are plain-uniform (history dependence, not branch coverage, is under test)', 'thorough tier repeats the histories against the ASan/UBSan build'], min_eval=500)
+
+
 def check_C08(tier):
     """sanitizer builds (ASan+UBSan+_GLIBCXX_ASSERTIONS) of the generation drivers + structure-aware libFuzzer target"""
     t0 = time.time()
@@ -281,6 +295,14 @@ def replay(prop, path):
         b = compile_bin('gencheck', ['checks/gencheck.cc'], 'fast', inc=[build])
         r = subprocess.run([b, '--prop', prop, '--replay', path], env=run_env())
         return r.returncode
+    if prop in ('C07', 'C09'):
+        nm, src = {'C07': ('history', 'checks/history.cc'), 'C09': ('proto', 'checks/proto.cc')}[prop]
+        b = compile_bin(nm, [src], 'fast', libs=['-lrapidcheck', '-rdynamic'] if prop == 'C09' else ['-lrapidcheck'])
+        r = subprocess.run([b, '--replay', path], env=run_env())
+        return r.returncode
+    if prop == 'C06':
+        print('C06 replay files name a grid point; the grid is enumerated completely: re-run ./check C06 quick')
+        return check_C06('quick')
     print('no replayer for', prop)
     return 2
 
